@@ -156,14 +156,14 @@ PROPS["C17"]["groups"].append({
     # 2 of the 4 entry points in the quick tier (one macro-generated, one hand-written hook); each is ~200 s of symbolic execution
     "harnesses": ["c17_writev_3iov", "c17_recvmsg_3iov"],
     "thorough_harnesses": ["c17_readv_3iov", "c17_sendmsg_3iov"],
-    "timeout": 2400, "timeout_thorough": 3400, "jobs": 2, "mem_gb": 30,
+    "timeout": 2400, "timeout_thorough": 3400, "jobs": 1, "mem_gb": 30,
     "bounds": "3 caller iovecs of 0..=2 bytes, 2 scripted responses, blocking descriptor, no time limit, waits succeed; unwind 5",
 })
 PROPS["C16"]["groups"].append({
     "mounts": [("c16_io.rs", "syscall/unix/mod.rs")], "cfgs": ["ocv_nv3"],
     "harnesses": ["c16_writev_3iov", "c16_sendmsg_3iov"],
     "thorough_harnesses": ["c16_readv_3iov", "c16_recvmsg_3iov"],
-    "timeout": 2400, "timeout_thorough": 3400, "jobs": 2, "mem_gb": 30,
+    "timeout": 2400, "timeout_thorough": 3400, "jobs": 1, "mem_gb": 30,
     "bounds": "3 caller iovecs of 0..=2 bytes, 2 scripted responses, blocking descriptor, no time limit, waits succeed; unwind 5",
 })
 
@@ -192,7 +192,7 @@ PROPS["C19"] = {
             # E6: the two libc::getsockopt FFI calls of send_time_limit/recv_time_limit go to the kernel-option model
             "subs": [("syscall/unix/mod.rs", "libc::getsockopt(", "verif_c19_sockopt::k_getsockopt(", None)],
             "harnesses": ["c19_step_set_rcvtimeo", "c19_step_set_sndtimeo", "c19_step_query_recv_limit",
-                          "c19_step_query_send_limit", "c19_step_close_and_reuse", "c19_conversion_all_timeval"],
+                          "c19_step_query_send_limit", "c19_step_close_and_reuse", "c19_step_close_interrupted_and_reuse", "c19_conversion_all_timeval"],
             "thorough_harnesses": ["c19_history_2", "c19_history_3"],
             "timeout": 1200, "timeout_thorough": 3000, "jobs": 6,
         },
@@ -230,7 +230,7 @@ PROPS["C21"] = {
     "groups": [
         {
             "mounts": [("c20_selector.rs", "net/selector/mod.rs")], "cfgs": ["ocv_small"],
-            "harnesses": ['c21_step_close_and_reuse_from_both', 'c21_step_close_and_reuse_from_none', 'c21_step_close_and_reuse_from_read', 'c21_step_close_and_reuse_from_write', 'c21_step_del_both_from_both', 'c21_step_del_both_from_none', 'c21_step_del_both_from_read', 'c21_step_del_both_from_write', 'c21_step_del_read_from_both', 'c21_step_del_read_from_none', 'c21_step_del_read_from_read', 'c21_step_del_read_from_write', 'c21_step_del_write_from_both', 'c21_step_del_write_from_none', 'c21_step_del_write_from_read', 'c21_step_del_write_from_write', 'c21_step_event_delivered_from_both', 'c21_step_event_delivered_from_none', 'c21_step_event_delivered_from_read', 'c21_step_event_delivered_from_write', 'c21_step_hooked_close_from_both', 'c21_step_hooked_close_from_none', 'c21_step_hooked_close_from_read', 'c21_step_hooked_close_from_write', 'c21_step_wait_read_from_both', 'c21_step_wait_read_from_none', 'c21_step_wait_read_from_read', 'c21_step_wait_read_from_write', 'c21_step_wait_write_from_both', 'c21_step_wait_write_from_none', 'c21_step_wait_write_from_read', 'c21_step_wait_write_from_write'],
+            "harnesses": ['c21_step_close_and_reuse_from_both', 'c21_step_close_and_reuse_from_none', 'c21_step_close_and_reuse_from_read', 'c21_step_close_and_reuse_from_write', 'c21_step_del_both_from_both', 'c21_step_del_both_from_none', 'c21_step_del_both_from_read', 'c21_step_del_both_from_write', 'c21_step_del_read_from_both', 'c21_step_del_read_from_none', 'c21_step_del_read_from_read', 'c21_step_del_read_from_write', 'c21_step_del_write_from_both', 'c21_step_del_write_from_none', 'c21_step_del_write_from_read', 'c21_step_del_write_from_write', 'c21_step_event_delivered_from_both', 'c21_step_wait_read_refused_by_the_os_from_none', 'c21_step_wait_write_refused_by_the_os_from_none', 'c21_step_wait_read_refused_by_the_os_from_write', 'c21_step_wait_write_refused_by_the_os_from_read', 'c21_step_event_delivered_from_none', 'c21_step_event_delivered_from_read', 'c21_step_event_delivered_from_write', 'c21_step_hooked_close_from_both', 'c21_step_hooked_close_from_none', 'c21_step_hooked_close_from_read', 'c21_step_hooked_close_from_write', 'c21_step_wait_read_from_both', 'c21_step_wait_read_from_none', 'c21_step_wait_read_from_read', 'c21_step_wait_read_from_write', 'c21_step_wait_write_from_both', 'c21_step_wait_write_from_none', 'c21_step_wait_write_from_read', 'c21_step_wait_write_from_write'],
             "timeout": 900, "jobs": 8,
             "bounds": "one operation on descriptor 0 from each of its 4 interest states (concrete), everything else symbolic; model containers of 2 entries; unwind 3",
         },
